@@ -56,6 +56,10 @@ pub fn Dec(input: TokenStream) -> TokenStream {
             if -exponent > (MAX_N_FRAC_DIGITS as isize) {
                 panic!("{}", ParseDecimalError::FracDigitLimitExceeded)
             }
+            if coeff == 0 && exponent > 0 {
+                // zero times any power of ten is zero
+                exponent = 0;
+            }
             if exponent > 38 {
                 // 10 ^ 39 > int128::MAX
                 panic!("{}", ParseDecimalError::InternalOverflow);
